@@ -19,6 +19,19 @@ LENGTH_CHANGING = {"filter_map", "take", "skip", "step_by", "flat_map", "flatten
                    "cycle", "filter"}
 
 
+KNOWN_ADAPTORS = {"iter", "iter_mut", "into_iter", "drain", "enumerate", "map", "inspect", "rev", "by_ref", "cloned", "copied", "peekable", "chain", "filter",
+                  "take_while", "encode_utf16"}
+
+
+LOCAL_ROOTS = ("linux", "mem_writer", "dir_section", "serializers", "minidump_format", "minidump_cpu", "error_list", "errors", "mac", "windows")
+_LOCAL_RE = __import__("re").compile(r"(^|<|&| as |impl |mut )(%s)::" % "|".join(LOCAL_ROOTS))
+
+
+def _is_std(name):
+    """not a function of THIS crate (std, core, alloc or another dependency)"""
+    return not _LOCAL_RE.search(name)
+
+
 def last(name):
     return name.split("::")[-1] if name else ""
 
@@ -29,6 +42,10 @@ def alen_iter(e, prog):
     if e[0] == "call":
         name, args = e[1], e[2]
         l = last(name)
+        if not _is_std(name) and l in KNOWN_ADAPTORS:
+            # a function of THIS crate that merely carries the name of a std adaptor (an extension trait's `iter`, a wrapper's `take`) yields
+            # whatever it likes
+            return ("Unknown", "%s is not the std function of that name" % name)
         if l in ("iter", "iter_mut", "into_iter", "drain") and args:
             return alen_coll(args[0], prog)
         if l in ("enumerate", "map", "inspect", "rev", "by_ref", "cloned", "copied", "peekable") and args:
